@@ -15,6 +15,10 @@ EXTENDS Integers, Sequences, FiniteSets, TLC, Json
 
 CoordCols == <<"z", "y", "x", "zvec", "yvec", "xvec">>
 FormatOf(suffix) == IF suffix \in {".pq", ".parquet"} THEN "parquet" ELSE "csv"
+(* suffixes that differ from the parquet ones only in letter case: the property does not say whether the dispatch is case
+   sensitive, only that to_file and from_file agree (the file reloads); either format is accepted for them *)
+CaseVariants == {".PARQUET", ".Parquet", ".PQ", ".Pq"}
+FormatsAllowed(suffix) == IF suffix \in CaseVariants THEN {"parquet", "csv"} ELSE {FormatOf(suffix)}
 Pow10(n) == CASE n = 0 -> 1 [] n = 1 -> 10 [] n = 2 -> 100 [] n = 3 -> 1000 [] n = 4 -> 10000 [] n = 5 -> 100000 [] n = 6 -> 1000000
 Abs(x) == IF x < 0 THEN -x ELSE x
 
@@ -41,14 +45,14 @@ RowOk(o, g, fmt, prec) ==
            stored_as ("csv"|"parquet"|"frame"), rows, back, err] *)
 Accepts(e) ==
   /\ e.err = ""
-  /\ (e.via = "file" => e.stored_as = FormatOf(e.suffix))
+  /\ (e.via = "file" => e.stored_as \in FormatsAllowed(e.suffix))
   /\ e.header = CoordCols \o e.cols
   /\ e.cols_back = e.cols                         \* the features come back in their original order
   /\ Len(e.back) = Len(e.rows)
   /\ \A i \in 1..Len(e.rows) : RowOk(e.rows[i], e.back[i], IF e.stored_as = "csv" THEN "csv" ELSE "exact", e.prec)
 Why(e) == IF e.err # "" THEN "UnexpectedError"
           ELSE IF Accepts(e) THEN "ok"
-          ELSE IF e.via = "file" /\ e.stored_as # FormatOf(e.suffix) THEN "WrongFormatForSuffix"
+          ELSE IF e.via = "file" /\ e.stored_as \notin FormatsAllowed(e.suffix) THEN "WrongFormatForSuffix"
           ELSE IF e.header # CoordCols \o e.cols \/ e.cols_back # e.cols THEN "ColumnLayout"
           ELSE IF Len(e.back) # Len(e.rows) THEN "RowCount"
           ELSE IF \E i \in 1..Len(e.rows) : \E a \in 1..3 : ~(IF e.stored_as = "csv" THEN WithinPrecQ(e.rows[i].pos[a], e.back[i].pos[a], e.prec, e.rows[i].q[a]) ELSE e.rows[i].pos[a] = e.back[i].pos[a]) THEN "Position"
